@@ -12,15 +12,22 @@
 // -> ACCEPT; a violated [REJECT] condition -> not ACCEPT; only timing-class conditions violated ->
 // IGNORE; Mark* called iff ACCEPT, with the rule's cache key.
 //
-// Sensitivity (tools/trymut.py, quick tier), all CAUGHT unless noted:
-//   - attestation.go: subnet check dropped (`if subnet != assignedSubnet` -> `if false`)
-//   - common.go CheckSlotSpan: max bound `slot > maxSlot` -> `slot >= maxSlot`
-//   - phase0/aggregate_and_proof.go IsAggregator: modulo from commSize+1
-//   - voluntary_exit.go: MarkExit moved before validation
-//   - beacon_block.go: finalized-slot check `block.Slot <= finSlot` -> `<`
-//   - aggregate_and_proof.go: `OnesCount() < 1` check dropped
-//   - sync_contrib_and_proof.go: subcommittee bound `>=` -> `>`  (EQUIVALENT: IndexedSyncCommittee.Subcommittee
-//     re-checks the bound and the validator REJECTs on its error; no verdict or side effect differs)
+// Sensitivity (tools/trymut.py, quick tier):
+//   - attestation.go: subnet check dropped (`if subnet != assignedSubnet {` -> `if false {`)            CAUGHT attestation/subnet/accepted
+//   - common.go CheckSlotSpan: max bound `slot > maxSlot` -> `slot >= maxSlot`                          CAUGHT */honest/refused (exactly-at-the-bound clocks)
+//   - common.go CheckSlotSpan: min bound `slot+span < minSlot` -> `<=`                                  CAUGHT */honest/refused
+//   - phase0/aggregate_and_proof.go IsAggregator: `modulo := (commSize + 1) / TARGET_AGGREGATORS...`    CAUGHT aggregate/honest/refused (committees of 31 / 47)
+//   - voluntary_exit.go: MarkExit moved before the validation                                           CAUGHT exit/process-voluntary-exit/marked-without-accept
+//   - beacon_block.go: finalized-slot check `block.Slot <= finSlot` -> `<`                              CAUGHT block/after-finalized-slot/accepted
+//   - beacon_block.go: future-slot check `maxSlot < block.Slot` -> `<=`                                 CAUGHT block/honest/refused
+//   - aggregate_and_proof.go: `if aggVal.SeenAggregate(aggRoot) {` -> `if false {`                      CAUGHT aggregate/aggregate-not-seen/accepted
+//   - sync_contrib_and_proof.go: aggregator-in-subcommittee check disabled                               CAUGHT contribution/aggregator-in-subcommittee/accepted
+//   - common.go SyncCommitteeAtSlot: always the current committee                                        CAUGHT sync_message|contribution/honest/refused
+//   - aggregate_and_proof.go: `OnesCount() < 1` check dropped                                           EQUIVALENT: an empty aggregate is REJECTed a few
+//     lines later by ConvertToIndexed/ValidateIndexedAttestation ("no empty attestation"), same verdict, same cache calls
+//   - sync_contrib_and_proof.go: subcommittee bound `>=` -> `>`                                          EQUIVALENT: IndexedSyncCommittee.Subcommittee
+//     re-checks the bound and the validator REJECTs on its error
+//   - attestation.go: `participants != 1` -> `participants < 1`                                          EQUIVALENT: SingleParticipant() REJECTs two bits
 package c12
 
 import (
@@ -76,7 +83,7 @@ func genView(rt *rapid.T, o viewOpts) *gossipbackend.ViewCase {
 		"MIN_VALIDATOR_WITHDRAWABILITY_DELAY": 2, "MIN_PER_EPOCH_CHURN_LIMIT": 4, "CHURN_LIMIT_QUOTIENT": 32,
 		"MAX_ATTESTATIONS": 128, "MAX_VOLUNTARY_EXITS": 4, "MAX_PROPOSER_SLASHINGS": 2, "MAX_ATTESTER_SLASHINGS": 2, "MAX_DEPOSITS": 4,
 		"EPOCHS_PER_SYNC_COMMITTEE_PERIOD": rapid.SampledFrom([]uint64{1, 2, 2, 4}).Draw(rt, "sync_period"),
-		"MIN_ATTESTATION_INCLUSION_DELAY": 1, "EJECTION_BALANCE": 16_000_000_000}
+		"MIN_ATTESTATION_INCLUSION_DELAY":  1, "EJECTION_BALANCE": 16_000_000_000}
 	var active int
 	if large {
 		// committee sizes around the multiples of TARGET_AGGREGATORS_PER_COMMITTEE (31|32|33, 47|48): modulo 1|2|3
@@ -603,7 +610,7 @@ func TestCheck(t *testing.T) {
 			return
 		}
 	}
-	r.Search(t, "views", 0, r.N(32, 480), func(rt *rapid.T) (any, *report.Failure) {
+	r.Search(t, "views", 0, r.N(96, 1440), func(rt *rapid.T) (any, *report.Failure) {
 		return sweep(r, rt, genView(rt, viewOpts{tour: -1}), -1)
 	})
 }
